@@ -41,7 +41,10 @@ fn main() {
             let thorough = args[4] == "thorough";
             let mut r = rng::Rng::new(seed);
             let mut cx = Ctx { out: &mut out, n: 0 };
-            match args[2].as_str() {
+            // the generators use the implementation's own encoders to build wire images; should one of them panic (a changed tree), the cases
+            // generated so far are kept and the run goes on with those
+            let stream = args[2].clone();
+            let res = std::panic::catch_unwind(std::panic::AssertUnwindSafe(|| match stream.as_str() {
                 "EV" => s_events::gen_ev(&mut r, thorough, &mut cx),
                 "DEC" => s_events::gen_dec(&mut r, thorough, &mut cx),
                 "AMB" => s_events::gen_amb(&mut r, thorough, &mut cx),
@@ -57,7 +60,8 @@ fn main() {
                 "EXC" => s_proto::gen_exc(&mut r, thorough, &mut cx),
                 "E2E" => s_e2e::gen_e2e(&mut r, thorough, &mut cx),
                 s => { eprintln!("unknown stream {}", s); std::process::exit(2); }
-            }
+            }));
+            if res.is_err() { eprintln!("harness gen {}: the implementation panicked inside a case generator; keeping the cases generated so far", args[2]); }
         }
         "exec" => {
             let f: fn(&[u64]) -> L = match args[2].as_str() {
